@@ -722,6 +722,19 @@ func (n *normalizer) sroaEdits(f *ast.File) []textEdit {
 			}
 			return true
 		}
+		// a struct that receives a copy of another struct which stays whole (x = y, y not split) is a
+		// value copy the rules may want to see as such: it stays whole too
+		for changed := true; changed; {
+			changed = false
+			for _, wa := range assigns {
+				if r, ok := unparen(wa.rhs).(*ast.Ident); ok && !wa.lhs.bad {
+					if rc := cands[info.Uses[r]]; rc == nil || !splittable(rc) {
+						wa.lhs.bad = true
+						changed = true
+					}
+				}
+			}
+		}
 		for _, wa := range assigns {
 			c := wa.lhs
 			if !splittable(c) {
